@@ -422,12 +422,18 @@ def _work(acc, job):
 def history_jobs(ctx):
     names = [n for n, _ in A.EVENTS]
     two = [n for n, _ in A.TWO_MDS_EVENTS]
+    reuse = [n for n, _ in A.REUSE_EVENTS]
+    full = ['create-reused-channel(mds0)', 'create-reused-metric', 'delete(reused-channel)', 'create-reused-channel(mds1)',
+            'create-reused-metric', 'metric(reused,1)']
+    reuse_hist = [full, [full[3], full[1], full[2], full[0], full[1], full[5]], full[:2] + full[5:], full[3:]]
+    reuse_hist += [list(h) for h in hist.sequences(reuse, 3) if h[0].startswith('create-reused-channel')]
     base = {'two_mds': False, 'async': False}
     jobs = []
     if ctx.quick:
         jobs += [(base, h) for h in hist.sequences(names, 1)]
         jobs += [(base, h) for h in hist.sequences(A.CORE, 2)]
         jobs += [({'two_mds': True, 'async': False}, h) for h in hist.sequences(two + A.CORE[:6], 2)]
+        jobs += [({'two_mds': True, 'async': False}, h) for h in reuse_hist]
         jobs += [({'two_mds': False, 'async': True}, h) for h in hist.sequences(A.CORE, 1)]
         jobs += [({'two_mds': False, 'async': False, 'periodic': True}, h) for h in hist.sequences(A.CORE[:9], 2)]
         jobs += [({'two_mds': False, 'async': False, 'periodic': True}, h) for h in
@@ -436,6 +442,7 @@ def history_jobs(ctx):
     else:
         jobs += [(base, h) for h in hist.sequences(names, 2)]
         jobs += [({'two_mds': True, 'async': False}, h) for h in hist.sequences(two + A.CORE, 2)]
+        jobs += [({'two_mds': True, 'async': False}, h) for h in reuse_hist]
         jobs += [({'two_mds': True, 'async': True}, h) for h in hist.sequences(two + A.CORE[:6], 2)]
         jobs += [({'two_mds': False, 'async': True}, h) for h in hist.sequences(A.CORE, 2)]
         jobs += [({'two_mds': False, 'async': False, 'periodic': True}, h) for h in hist.sequences(A.CORE, 2)]
